@@ -189,7 +189,7 @@ var htmlHeavy = &gen.Profile{Name: "htmlheavy", Extra: []string{
 	"\"><script>", "'><x>", "\" onmouseover=\"x", "--><x>", "]]><x>", "?><x>", "\x00", "\x80", "\n", "\n", " ", "# ", "## ", "```", "~~~", "[", "]", "(", ")", "![",
 }}
 
-var frags = []string{"\"", "'", "<", ">", "&", "\"><script>alert(1)</script>", "\" onerror=\"x", "'><b>", "<!-- x -->", "--><b>", "&quot;", "&#34;", "&#x22;", "&amp;quot;", "&lt;b&gt;", "<b>", "</a>", "</code>", "</pre>", "\\\"", "\\<", "&", "&#", "&x", "a&b", "\x00", "\x80\"", "é\"", "x\ny", "x  \ny", "x\\\ny", "*e*", "`c`", "]", ")", "|", "{", "}", "{#x}", "<a href=\"x\">", "a\"b'c<d>e&f"}
+var frags = []string{"\"", "'", "<", ">", "&", "\"><script>alert(1)</script>", "\" onerror=\"x", "'><b>", "<!-- x -->", "--><b>", "&quot;", "&#34;", "&#x22;", "&amp;quot;", "&lt;b&gt;", "<b>", "</a>", "</code>", "</pre>", "\\\"", "\\<", "&", "&#", "&x", "a&b", "\x00", "\x80\"", "é\"", "x\ny", "x  \ny", "x\\\ny", "*e*", "`c`", "]", ")", "|", "{", "}", "{#x}", "<a href=\"x\">", "a\"b'c<d>e&f", "<http://a/\"o=\"1>", "<x&y@a.bc>", "<http://a/?a&b=\"c\">", "<mailto:a\"b@c.de>", "[l](u \"t\")", "![i](u 't')", "<http://a.b/&nvlt;>", "`\"`", "*\"*"}
 
 func frag(t *rapid.T, label string) []byte {
 	if rapid.IntRange(0, 2).Draw(t, label+"k") == 0 {
